@@ -31,7 +31,7 @@ Players == 1..MaxP
 NoLB  == [x |-> FALSE, v |-> 0, en |-> FALSE, done |-> FALSE]
 NewLB == [x |-> TRUE, v |-> 0, en |-> TRUE, done |-> FALSE]
 NoP   == [ex |-> FALSE, score |-> 0, bonus |-> 0, ball |-> 0, eb |-> 0, c1 |-> NoLB, a1 |-> NoLB, q1 |-> NoLB, c2 |-> NoLB,
-          s |-> <<0, 0, 0>>, e |-> <<-1, -1>>, ach |-> "none", tick |-> -1, rs |-> FALSE]
+          s |-> <<0, 0, 0>>, e |-> <<-1, -1>>, ach |-> "none", tick |-> -1, rs |-> FALSE, xv |-> 0]
 InitP == [NoP EXCEPT !.ex = TRUE, !.bonus = 2]          \* configured initial values (player_vars: bonus = 2)
 Vol0  == [c3 |-> NoLB, e3 |-> FALSE, trun |-> FALSE, tpause |-> 0]
 VolFresh == [c3 |-> NewLB, e3 |-> TRUE, trun |-> FALSE, tpause |-> 0]
